@@ -279,6 +279,7 @@ static int rewrite_file (int cginp, const char *filename)
         return get_error();
     }
     output = get_cgnsio(cgout, 0);
+    input = get_cgnsio(cginp, 0); /* cgio_open_file may have moved iolist */
 
     ierr = recurse_nodes(cginp, input->rootid, cgout, output->rootid, 0, 0);
     cgio_close_file (cgout);
